@@ -4,7 +4,7 @@ import cxx_specs as XS
 
 PROPERTY = "C12"
 LEVEL = "proof"
-EXPLANATION = ""
+EXPLANATION = ('Proof that one AES round (soft T-table implementation) equals FIPS-197 SubBytes/ShiftRows/MixColumns/AddRoundKey column by column for all 2^128 states, that the four generator / hash primitives apply the specified keys and lane directions per 64-byte step, and (thorough) that the fused hashAndFill equals hash followed by fill.')
 TRUSTED = ["suites/common/spec_aes.h (FIPS-197 round oracle)", "hardware AES instructions (AESENC/AESDEC, ARM, POWER) compute the FIPS-197 round: assumed",
            "asm/program_loop_store_*aes*.inc, program_soft_aes_*.inc (hand-written assembly)"]
 ASSUMPTIONS = []
